@@ -18,7 +18,7 @@ Not decided: more than 4 basins (no inductive argument); Boruvka's large-degree 
 """
 import itertools
 
-from ..interp import Interp, World, Obj, PyVec, ThrowEx, NOT_HANDLED, ElemRef, Sym, OutOfRange
+from ..interp import out_param, Interp, World, Obj, PyVec, ThrowEx, NOT_HANDLED, ElemRef, Sym, OutOfRange
 from ..sir import AnalysisBroken
 from .routers import Table
 
@@ -357,8 +357,9 @@ def connect_rule(db, chk, uname, fns, rec):
                             return it.rv(it.eval(args[0], frame)) in base
                         if nm == "neighbors":
                             i = it.rv(it.eval(args[0], frame))
-                            return PyVec([Obj("fastscapelib::neighbor", {"idx": j, "distance": 1.0, "status": 0})
-                                          for j in adj[i]])
+                            return out_param(it, frame, args, 1,
+                                             PyVec([Obj("fastscapelib::neighbor", {"idx": j, "distance": 1.0, "status": 0})
+                                                    for j in adj[i]]))
                         return NOT_HANDLED
 
                     def external(self, it, f2, call, frame):
